@@ -2,6 +2,7 @@ package main
 
 import (
 	"bufio"
+	"encoding/json"
 	"fmt"
 	"io"
 	"log"
@@ -9,6 +10,7 @@ import (
 	"sort"
 	"strings"
 
+	"github.com/go-openapi/loads"
 	"github.com/go-openapi/runtime"
 	"github.com/go-openapi/runtime/middleware"
 	"github.com/go-openapi/runtime/middleware/untyped"
@@ -27,15 +29,27 @@ type Desc struct {
 	Base   string `json:"base"`
 	NoBase bool   `json:"no_base,omitempty"` // no basePath member at all
 	Ops    []OpC  `json:"ops"`
+	// IDs: how the operations are identified. "" = every operation has its own operationId;
+	// "none" = no operation has an operationId (it is optional in Swagger 2.0); "dup" = all
+	// operations carry the same operationId (a description error the loader accepts);
+	// "mix" = operations at even positions have none, the others their own.
+	IDs string `json:"ids,omitempty"`
+}
+
+// Req is one request line.
+type Req struct {
+	Method string `json:"method"`
+	Target string `json:"target"`
 }
 
 // Case = one description, one entry point, one request as a raw request line.
 type Case struct {
 	Desc
-	Via    string `json:"via"`             // "routes" = Context.RoutesHandler(builder), "api" = Context.APIHandler(builder)
-	Debug  bool   `json:"debug,omitempty"` // middleware.Debug = true while the API is wired and the request served
-	Method string `json:"method"`          // method token as sent
-	Target string `json:"target"`          // request-target as sent
+	Via    string `json:"via"`              // "routes" = Context.RoutesHandler(builder), "api" = Context.APIHandler(builder)
+	Debug  bool   `json:"debug,omitempty"`  // middleware.Debug = true while the API is wired and the request served
+	Before []Req  `json:"before,omitempty"` // requests served earlier, in this order, by the SAME wired handler
+	Method string `json:"method"`           // method token as sent
+	Target string `json:"target"`           // request-target as sent
 }
 
 // built is a description wired on the real middleware; single-threaded use.
@@ -64,10 +78,46 @@ func build(d Desc, via string) (b *built, err error) {
 			err = fmt.Errorf("building the API panicked: %v", e)
 		}
 	}()
-	doc, err := apib.Load(d.spec())
+	doc, err := d.load()
 	if err != nil {
 		return nil, err
 	}
+	return wireUp(d, doc, via), nil
+}
+
+// load analyses the description in memory (the operationId variants are produced by editing
+// the rendered document, apib always writes an operationId).
+func (d Desc) load() (*loads.Document, error) {
+	if d.IDs == "" {
+		return apib.Load(d.spec())
+	}
+	var doc map[string]any
+	if err := json.Unmarshal(d.spec().JSON(), &doc); err != nil {
+		return nil, err
+	}
+	paths, _ := doc["paths"].(map[string]any)
+	for i, o := range d.Ops {
+		pi, _ := paths[o.Template].(map[string]any)
+		op, _ := pi[strings.ToLower(o.Method)].(map[string]any)
+		if op == nil {
+			return nil, fmt.Errorf("operation %s %s not rendered", o.Method, o.Template)
+		}
+		switch {
+		case d.IDs == "none", d.IDs == "mix" && i%2 == 0:
+			delete(op, "operationId")
+		case d.IDs == "dup":
+			op["operationId"] = "same"
+		}
+	}
+	raw, err := json.Marshal(doc)
+	if err != nil {
+		return nil, err
+	}
+	return loads.Analyzed(json.RawMessage(raw), "")
+}
+
+// wireUp builds a fresh API, context and handler chain over an analysed description.
+func wireUp(d Desc, doc *loads.Document, via string) (b *built) {
 	b = &built{desc: d, routes: makeRoutes(d.Base, d.Ops), obs: &observed{}}
 	api := untyped.NewAPI(doc)
 	for i, o := range d.Ops {
@@ -102,7 +152,7 @@ func build(d Desc, via string) (b *built, err error) {
 	default:
 		b.handler = ctx.RoutesHandler(spy)
 	}
-	return b, nil
+	return b
 }
 
 // discardLogger swallows the debug output of the library.
@@ -215,9 +265,22 @@ func check(c Case) (class, what string) {
 		if err != nil {
 			return "", "description does not load: " + err.Error()
 		}
+		for _, q := range c.Before {
+			if rq, err := parse(rawRequest(q.Method, q.Target)); err == nil {
+				b.serve(rq)
+			}
+		}
 		req, _ = parse(rawRequest(c.Method, c.Target))
 		o := b.serve(req)
 		class, what, _ = judgeIn(c.Debug, b.routes, req.Method, req.URL.EscapedPath(), o)
+		if class != "" && len(c.Before) > 0 {
+			// does it need the history? the same request on a fresh instance decides the class suffix
+			fresh, _ := build(c.Desc, c.Via)
+			rq, _ := parse(rawRequest(c.Method, c.Target))
+			if fc, _, _ := judgeIn(c.Debug, fresh.routes, rq.Method, rq.URL.EscapedPath(), fresh.serve(rq)); fc == "" {
+				class, what = afterHistory(class, what, len(c.Before))
+			}
+		}
 		if class != "" {
 			return class, what
 		}
